@@ -25,6 +25,7 @@ type Loaded struct {
 	Harnesses map[string]*ssa.Function // name -> function
 	HarnessPk map[string]string        // name -> package dir relative to repo
 	Redirects map[string]*ssa.Function
+	Summarize map[string]bool
 	Dropped   []string          // harness files that did not type-check
 	Overlay   map[string]string // virtual path -> real path
 	LoadS     float64
@@ -48,7 +49,7 @@ func CollectOverlay(harnessDir, repo string) (map[string]string, error) {
 }
 
 func Load(repo string, overlay map[string]string, wantPkgs []string) (*Loaded, error) {
-	l := &Loaded{Overlay: overlay, Harnesses: map[string]*ssa.Function{}, HarnessPk: map[string]string{}, Redirects: map[string]*ssa.Function{}}
+	l := &Loaded{Overlay: overlay, Harnesses: map[string]*ssa.Function{}, HarnessPk: map[string]string{}, Redirects: map[string]*ssa.Function{}, Summarize: map[string]bool{}}
 	dropped := map[string]bool{}
 	for attempt := 0; attempt < 40; attempt++ {
 		ovBytes := map[string][]byte{}
@@ -136,6 +137,23 @@ func Load(repo string, overlay map[string]string, wantPkgs []string) (*Loaded, e
 			if fn, ok := mem.(*ssa.Function); ok && strings.HasPrefix(name, "Verif_") {
 				l.Harnesses[name] = fn
 				l.HarnessPk[name] = rel
+			}
+		}
+		for _, f := range p.Syntax {
+			for _, d := range f.Decls {
+				fd, ok := d.(*ast.FuncDecl)
+				if !ok || fd.Doc == nil {
+					continue
+				}
+				for _, c := range fd.Doc.List {
+					if strings.HasPrefix(c.Text, "//verif:summarize") {
+						if fd.Recv == nil {
+							if fn := sp.Func(fd.Name.Name); fn != nil {
+								l.Summarize[fn.String()] = true
+							}
+						}
+					}
+				}
 			}
 		}
 		if p.PkgPath == ModelsPath {
